@@ -386,6 +386,38 @@ func c14Gen(t *rapid.T) c14Case {
 		}
 		c.Aim = "canon-cache-full"
 	}
+	if c.Aim == "" && len(c.Reqs) >= 2 && rapid.IntRange(0, 5).Draw(t, "abandon") == 0 {
+		// A response write abandoned while one of its frames is still in the writer:
+		// exchange 0 replies with more than the client reads (bounded pipe towards the
+		// client) and is cancelled after a few body bytes; the other exchanges start
+		// slightly later and write several medium-sized chunks, so anything the server
+		// recycled from the abandoned write (result channels, write requests) is reused
+		// while the stale frame completes.
+		if c.Cli.ReadBuf == 0 {
+			c.Cli.ReadBuf = rapid.SampledFrom([]int{64, 1000, 4096}).Draw(t, "abandon-rbuf")
+		}
+		q := &c.Reqs[0]
+		if q.Status == 204 || q.Status == 304 || q.Status > 299 {
+			q.Status = 200
+		}
+		if q.Method == "HEAD" {
+			q.Method = "GET"
+		}
+		n := min(rapid.SampledFrom([]int{4400, 20000, 100000}).Draw(t, "abandon-n"), respLimit/2)
+		m := min(4400, respLimit/3)
+		q.RChunks = []c14Chunk{{N: n, Flush: true}, {N: n, Flush: true}}
+		q.RTrailers, q.RPTrailers, q.RUnset = nil, nil, nil
+		q.Cancel, q.CancelAt = 4, rapid.SampledFrom([]int{1, 100, 4096}).Draw(t, "abandon-at")
+		for k := 1; k < len(c.Reqs); k++ {
+			o := &c.Reqs[k]
+			if o.Cancel != 0 || o.Method == "HEAD" || o.Status == 204 || o.Status == 304 {
+				continue
+			}
+			o.StartMS = q.StartMS + 1 + k%3
+			o.RChunks = []c14Chunk{{N: m, Flush: true}, {N: m, Flush: true}, {N: m}}
+		}
+		c.Aim = "abandoned-write"
+	}
 	for k := range c.Reqs {
 		if c.overLimit(&c.Reqs[k]) {
 			// see c14Run: bounded pipes are not combined with exchanges that may end in a
